@@ -109,7 +109,9 @@ func (s *Solver) Close() {
 }
 
 func (s *Solver) restart() {
-	s.Close()
+	if s.cmd != nil {
+		s.Close()
+	}
 	if err := s.start(); err != nil {
 		panic(engineError("solver restart: " + err.Error()))
 	}
@@ -155,6 +157,14 @@ func (s *Solver) define(roots []*Term) {
 	if sb.Len() > 0 {
 		s.send(sb.String())
 	}
+}
+
+func (s *Solver) readLineErr() (string, error) {
+	line, err := s.out.ReadString('\n')
+	if err != nil {
+		return "", err
+	}
+	return strings.TrimSpace(line), nil
 }
 
 func (s *Solver) readLine() string {
@@ -234,7 +244,27 @@ func (s *Solver) Check(conds []*Term, want []*Term) (SatResult, map[int]uint64) 
 	sb.WriteString("(check-sat)\n")
 	s.send(sb.String())
 	res := Unknown
-	line := s.readLine()
+	// hard watchdog: z3 does not always honour its soft timeout
+	killed := false
+	proc := s.cmd.Process
+	timer := time.AfterFunc(time.Duration(s.timeoutMs)*time.Millisecond+10*time.Second, func() {
+		killed = true
+		proc.Kill()
+	})
+	line, rerr := s.readLineErr()
+	timer.Stop()
+	if rerr != nil {
+		s.cmd.Wait()
+		s.cmd = nil
+		s.restart()
+		s.UnknownN++
+		if killed {
+			s.LastErr = "solver killed by the hard timeout"
+		} else {
+			s.LastErr = "solver died: " + rerr.Error()
+		}
+		return Unknown, nil
+	}
 	for strings.HasPrefix(line, "(error") || line == "" {
 		if line != "" {
 			s.LastErr = line
